@@ -25,3 +25,28 @@ WT_TRUST = [
     "byte channels and FramedWrite/RawResponseMessageEncoder (a write future is the list of frames it sends), "
     "HashMap/HashSet iteration order (outputs sorted), compare_recon_values (map keys are key classes)",
 ]
+
+
+# The end-to-end rig (`sv-e2e` / monitor `e2e`): real agent + real runtime + remotes; monitor only.
+E2E_REASONS = {
+    "C01": r"value-event-stale-or-reordered|value-stale-at-quiescence|value-event-on-map-lane",
+    "C02": r"map-replica-diverged|map-event-on-other-lane",
+    "C03": r"map-snapshot-inconsistent|value-snapshot-inconsistent|value-synced-without-value|"
+           r"sync-request-never-answered|synced-not-requested|map-update-lost-during-implicit-link-sync",
+    "C04": r"event-outside-link|unlinked-without-open-link|lane-not-found.*|linked-for-unknown-lane|"
+           r"link-left-open-at-stop|fabricated-event-body|synced-outside-link|linked-remote-never-told-linked|"
+           r"unexpected-frame-body|frame-decode-error|run-.*|unparsable.*",
+    "C14": r"supply-.*|command-.*",
+}
+
+
+def e2e_engine(pid, quick=1500, thorough=150000):
+    return {"name": "e2e", "crate": "core", "bin": "sv-e2e", "machine": "e2e", "modes": ["monitor"],
+            "reasons": E2E_REASONS[pid], "cases": {"quick": quick, "thorough": thorough}, "min_shard": 100,
+            "nontrivial_min_ops": 6, "timeout": 3000}
+
+
+E2E_TRUST = [
+    "end-to-end rig: tokio current-thread runtime with paused time and its select! randomness are sampled, not "
+    "modelled; the agent-side history logged by the test lifecycle is taken as ground truth",
+]
